@@ -25,6 +25,7 @@ structure Tok where
   issuer : String := ""           -- the issuer (`op.IssuerFromContext(ctx)`) it was created under
   exp : Int := 0                  -- the expiration the storage gave it (what `CreateAccessToken` returned; ns since the epoch)
   jwt : Bool := false             -- handed out as a JWT (the client's `AccessTokenType`), else as an opaque token
+  openid : Bool := true           -- granted the scope `openid` (the reference storage hands out `sub` at userinfo under that scope only)
   expired : Bool := false         -- the storage's verdict `Expiration.Before(now)` at the request being served (Model/ResourceTime.lean)
   revoked : Bool := false
   gone : Bool := false            -- removed from the table (rotation of its refresh token)
@@ -94,7 +95,7 @@ namespace Res.St
 /-- `Storage.SetUserinfoFromToken(ctx, userinfo, tokenID, subject, origin)`: the token must be known, unrevoked, unexpired -/
 def SetUserinfoFromToken (s : St) (iss tokenID _subject : String) : Go.R ResUserInfo :=
   match s.liveTok iss tokenID with
-  | some t => .ok { Subject := t.subject, tokenID := t.id }
+  | some t => .ok { Subject := if t.openid then t.subject else "", tokenID := t.id }
   | none => .error "token is invalid"
 
 /-- `Storage.SetIntrospectionFromToken(ctx, resp, tokenID, subject, clientID)`: live token whose audience contains the caller -/
